@@ -62,6 +62,35 @@ CLAIMS["C17"] = dict(
          "the specification min(first index with element >= query, n-1). The vector variant is not decided (numpy semantics are not "
          "modelled); rounding is not modelled.")
 
+CLAIMS["C03"] = dict(
+    category="other", design="DESIGN.md 4/C03",
+    technique="quantity-kind (affine/direction) type checking of time arithmetic; def-use and polynomial normal forms of the commit; "
+              "dominance of capacity tests; abstract interpretation of dt orientation over the structured control flow",
+    text="Decides the structural clause of C03 for every span, direction and history at once: (1) the time arithmetic of integrate(), "
+         "__fix_dt_dir, __alloc_space_steps and the dt/t0/tf setters is well-kinded (no abs/sign/scaling of absolute times, no ordering of "
+         "signed steps outside a direction guard), which is the necessary condition for translation/reflection invariance; (2) each loop "
+         "iteration calls the integrator at the last committed row with a step in {dt, tf - t}, writes rows counter+1 = row + that call's own "
+         "increments before advancing the counter with no user-code call in between, clamps exactly when |dt| > |tf - t|, loops while |tf - t| >= eps; "
+         "(3) a capacity test dominates every row write; (4) only row counter+1 is ever stored and buffers keep y0's dtype; (5) on every path the "
+         "signed step handed to the integrator was oriented toward THIS call's target. Not decided: finiteness of values, rounding-level closeness to tf.")
+CLAIMS["C04"] = dict(
+    category="other", design="DESIGN.md 4/C04",
+    technique="quantity-kind (direction/unit) type checking of the integrators' step arithmetic; provenance abstract interpretation of the returned step; def-use rules",
+    text="Decides: the step-size arithmetic of RungeKuttaIntegrator.__call__/step, the splitting integrator, update_timestep, the implicit-aware "
+         "controller and the Richardson wrapper is direction-symmetric (no min/max/ordering/log of signed steps); on every path of __call__ a "
+         "non-adaptive explicit method hands back exactly the step it was given and an implicit one at most shrinks it after a failed stage solve "
+         "(provenance lattice INPUT/SHRUNK/CONTROLLER); dTime records the requested step; integrate() overwrites dt only with the integrator's "
+         "proposal and only when the step was not the clamped last one. The rounding/tolerance-level shift/reflection relation of computed states is "
+         "not decided; well-kindedness is its necessary condition.")
+CLAIMS["C05"] = dict(
+    category="other", design="DESIGN.md 4/C05",
+    technique="typestate abstract interpretation of the retry loop (fixpoint over abstract states, exceptional edges); normal forms and folded constants of the controller",
+    text="Decides only the second sentence of C05: on every path of RungeKuttaIntegrator.__call__ a step whose redo flag is set is never returned "
+         "(it is retried inside a bounded loop or FailedToMeetTolerances is raised); the retried step is the controller's proposal bounded in magnitude by "
+         "the requested step; update_timestep returns (corr*h, corr<c) with one corr and constant c<1 and the implicit-aware limiter cannot undo the "
+         "shrink (c*(1+0.1*pi/2)<1); the error fed to the controller is h*sum(b-b_hat)k. NOT decided (not applicable to static analysis): that the "
+         "global error is proportional to the tolerances.")
+
 PENDING = {}   # property -> reason it is not (yet) claimed
 
 
